@@ -1,6 +1,7 @@
 import LyModel.Conc.LockLemmas
 import LyModel.Conc.DictLemmas
 import LyModel.Conc.ErrLemmas
+import LyModel.Conc.ErrView
 import LyModel.Conc.Lazy
 import LyModel.Generated.LockPaths
 import LyModel.Generated.Consts
@@ -152,6 +153,15 @@ theorem err_isolated_partial (inl : Bool) (sched : List (Nat × ErrStep)) (s : E
     (h : errRun inl errInit sched = .ok s) : ∀ o ∈ s.obs, o.owner = o.thread :=
   (errRun_inv (einv_init inl _ rfl) h).obsOk
 
+/-- "Every thread obtains exactly the error records it would obtain running alone": in every schedule of any number of
+    threads that does not dereference a stale pointer, the observations of thread `t` (every `ly_err_first/last`
+    result, in order) are those of the run in which only `t`'s own steps are executed. -/
+theorem err_view_alone (inl : Bool) (t : Nat) (sched : List (Nat × ErrStep)) (s : ErrState)
+    (h : errRun inl errInit sched = .ok s) :
+    ∃ a, errRun inl errInit (mine t sched) = .ok a ∧ obsOf t s.obs = a.obs := by
+  obtain ⟨a, ha, hsim⟩ := errRun_sim sched errInit errInit s (einv_init inl _ rfl) (einv_init inl _ rfl) (sim_init inl t) h
+  exact ⟨a, ha, by rw [hsim.obs, obsOf_mine ha]⟩
+
 /-- With separately allocated records the statement holds in full: every schedule runs through and is isolated. -/
 theorem err_isolated_heap (sched : List (Nat × ErrStep)) :
     ∃ s, errRun false errInit sched = .ok s ∧ ∀ o ∈ s.obs, o.owner = o.thread := by
@@ -211,7 +221,8 @@ theorem lazy_canon_sites :
       [("lyplg_type_print_binary", false), ("lyplg_type_print_bits", false), ("lyplg_type_print_date_and_time", false),
        ("lyplg_type_print_ipv4_address", false), ("lyplg_type_print_ipv4_address_no_zone", false),
        ("lyplg_type_print_ipv4_prefix", false), ("lyplg_type_print_ipv6_address", false),
-       ("lyplg_type_print_ipv6_address_no_zone", false), ("lyplg_type_print_ipv6_prefix", false)] := by decide
+       ("lyplg_type_print_ipv6_address_no_zone", false), ("lyplg_type_print_ipv6_prefix", false),
+       ("lyplg_type_print_union", false)] := by decide
 
 /-- For a value whose canonical string is already cached, any number of readers in any schedule leave the
     dictionary alone, all return the cached string, and freeing the value releases its one reference. -/
